@@ -21,7 +21,7 @@ META = {
     "back for a lot is l-e and a seek offers the cached remainder or the full crypto_in; GainLoss rejects non-positive amounts, amounts above the event's outgoing amount "
     "or the lot's amount, lots later than the event and asset mismatches, and GainLossSet rejects running sums that exceed an event or a lot, so over-consumption "
     "is an error, not figures; when no lot at or before the event has balance the seek raises AcquiredLotsExhaustedException on every path and the tax engine converts it "
-    "to RP2ValueError; only the end of the taxable events ends the loop silently; lots are found through an order-preserving UTC key (never a lot after the disposal).",
+    "to RP2ValueError; only the end of the taxable events ends the loop silently; a lot handed out by a seek stays among the candidates unless exhausted (no valid history is rejected because a lot with balance was lost); lots are found through an order-preserving UTC key (never a lot after the disposal).",
     "not_decided": "exact exhaustion after selling the whole holding and absence of spurious exhaustion for every history (global behaviour of the matcher under 13-decimal "
     "quantised comparisons); run-time values.",
     "assumptions": ["RP2Decimal comparisons quantise to 13 decimals", "prezzemolo AVLTree semantics"],
@@ -110,6 +110,10 @@ def run(rep: Report, tier: str) -> None:
     tr = [n for n in ast.walk(gn.node) if isinstance(n, ast.Try)]
     ok = len(tr) == 1 and len(tr[0].body) == 1 and "next(self.__taxable_event_iterator)" in unparse(tr[0].body[0]) and [unparse(h.type) for h in tr[0].handlers] == ["StopIteration"] and "TaxableEventsExhaustedException" in unparse(tr[0].handlers[0].body[0])
     rep.check(ok, rd, gn.module, gn.qualname, "TaxableEventsExhaustedException is raised only when the event iterator is exhausted", "TaxableEventsExhaustedException is no longer raised exactly when next(<event iterator>) stops: the loop could end early and leave disposals uncovered without an error", loc(gn.node))
+
+    # ---------------------------------------------------------------- C02.f
+    rf = rep.rule("C02.f", "no lot with balance leaves the candidate structures: a selected lot is put back on every returning path; the chronological start only moves past exhausted lots", floor=2)
+    engine.check_heap_typestate(rep, rf)
 
     # ---------------------------------------------------------------- C02.e
     re_ = rep.rule("C02.e", "no fraction from a lot acquired after the disposal: order-preserving lot index, window bounded by the event", floor=10)
